@@ -306,6 +306,17 @@ def clip_rules(ctx, d2, vle):
                 # the fraction was reset to 1: the amount moved must be exactly the phase amount (coefficient 1, no quotient left)
                 if not all(v == 1 and len(k) == 1 for k, v in amt.t.items()):
                     bad = 'fraction above 1 is not reset to 1 before the transfer'
+            # a fraction in (0,1] keeps the donor non-negative only if it multiplies the DONOR's own amount: every term of the amount taken
+            # out of a phase row carries that row's entries (possibly through a copy of it) as a factor
+            for d_ in tr:
+                if d_.op != 'Sub':
+                    continue
+                donor = vle_side(d_.target)[0]
+                for k in d_.value.t:
+                    own = [a_ for a_, ex in k if ex == 1 and (vle_side(a_.replace('.copy()', '')) or (None,))[0] == donor]
+                    if not own:
+                        bad = 'the amount taken out of the %s row is a fraction of another quantity (%s), not of that row: the row can go negative' % (
+                            donor, ' * '.join(a_ for a_, ex in k if 'mol' in a_)[:120] or 'no phase amount')
         if bad or not n:
             d2.fail('VLE.' + name, 'fraction-clamp', bad or 'no transfer path found', g, g.node)
         else:
